@@ -39,7 +39,7 @@ func loadCopier(c *Ctx) *copier {
 		hArray: w.fn("", "deepCopier.deepCopyArray"), valM: w.fn("", "deepCopier.deepCopyValue"),
 		real: w.fn("", "realDeepCopy"), valF: w.fn("", "deepCopyValue"), newC: w.fn("", "newDeepCopier"),
 	}
-	ok := cp.dispatch != nil && cp.hStruct != nil && cp.hPtr != nil && cp.hIface != nil && cp.hMap != nil && cp.hSlice != nil && cp.hArray != nil && cp.valM != nil && cp.real != nil && cp.valF != nil && cp.newC != nil
+	ok := cp.dispatch != nil && cp.hStruct != nil && cp.hPtr != nil && cp.hIface != nil && cp.hMap != nil && cp.hSlice != nil && cp.hArray != nil && cp.valM != nil && cp.real != nil && cp.newC != nil // the package-level deepCopyValue convenience wrapper is optional
 	if !c.need(ok, "the deep copier functions (deepCopier.deepCopy and its handlers, realDeepCopy, deepCopyValue, newDeepCopier)") {
 		return nil
 	}
